@@ -37,7 +37,7 @@ def build_elem(d, pool, core):
 VIEWS2 = ['plain', 'T', 'dotT', 'F', 'slice', 'step', 'Tslice']
 VIEWS1 = ['plain', 'slice', 'step', 'rev']
 
-def make_view(elems, mode, la):
+def make_view(elems, mode, la, dt=None):
     """(array passed to the function, base array that owns the memory).  `elems` is the LOGICAL
     content (element [i][j] of what is passed); the memory layout differs by mode:
     T / dotT: transpose view of a C-ordered base; F: Fortran-ordered array; slice / step: a window /
@@ -45,71 +45,73 @@ def make_view(elems, mode, la):
     reversed view."""
     import numpy as np
     from GTC.uncertain_array import UncertainArray
+    # dt: build the memory as a NUMERIC ndarray of that dtype (uarray keeps the dtype of an ndarray)
+    U = la.uarray if dt is None else (lambda x: la.uarray(np.array(x, dtype=dt)))
     two = bool(elems) and isinstance(elems[0], list)
     if mode in (None, 'plain'):
-        a = la.uarray(elems); return a, a
+        a = U(elems); return a, a
     if not two:
         n = len(elems)
         if mode == 'slice':
-            base = la.uarray([91.5] + list(elems) + [92.5, 93.5]); return base[1:n + 1], base
+            base = U([91.5] + list(elems) + [92.5, 93.5]); return base[1:n + 1], base
         if mode == 'step':
             full = []
             for e in elems: full += [e, 94.5]
-            base = la.uarray(full); return base[::2], base
+            base = U(full); return base[::2], base
         if mode == 'rev':
-            base = la.uarray(list(reversed(elems))); return base[::-1], base
+            base = U(list(reversed(elems))); return base[::-1], base
         raise ValueError(mode)
     n, m = len(elems), len(elems[0])
     tr = [[elems[i][j] for i in range(n)] for j in range(m)]
     if mode == 'T':
-        base = la.uarray(tr); return la.transpose(base), base
+        base = U(tr); return la.transpose(base), base
     if mode == 'dotT':
-        base = la.uarray(tr); return base.T, base
+        base = U(tr); return base.T, base
     if mode == 'F':
         o = np.empty((n, m), dtype=object, order='F')
         for i in range(n):
             for j in range(m): o[i, j] = elems[i][j]
-        base = UncertainArray(o); return base, base
+        base = UncertainArray(o if dt is None else np.asfortranarray(o.astype(dt))); return base, base
     if mode == 'slice':
         big = [[95.5] * (m + 3)] + [[96.5] + list(r) + [97.5, 98.5] for r in elems] + [[99.5] * (m + 3)]
-        base = la.uarray(big); return base[1:n + 1, 1:m + 1], base
+        base = U(big); return base[1:n + 1, 1:m + 1], base
     if mode == 'step':
         big = []
         for r in elems:
             row = []
             for e in r: row += [81.5, e]
             big.append(row); big.append([82.5] * (2 * m))
-        base = la.uarray(big); return base[::2, 1::2], base
+        base = U(big); return base[::2, 1::2], base
     if mode == 'Tslice':
         big = [[83.5] * (n + 2)] + [[84.5] + list(r) + [85.5] for r in tr]
-        base = la.uarray(big); return base.T[1:n + 1, 1:m + 1], base
+        base = U(big); return base.T[1:n + 1, 1:m + 1], base
     raise ValueError(mode)
 
 def build(case, want_bases=False):
     from GTC import core, la
     new_context(case['ctx'])
     pool = [core.ureal(x, u, independent=bool(ind)) for x, u, ind in case['pool']]
-    def arr(rows, mode):
+    def arr(rows, mode, dt=None):
         if rows is None: return None, None
         if rows and isinstance(rows[0], list) and rows[0] and isinstance(rows[0][0], list):
             elems = [[build_elem(e, pool, core) for e in r] for r in rows]
             if not all(len(r) == len(elems[0]) for r in elems): mode = 'plain'
         else:
             elems = [build_elem(e, pool, core) for e in rows]
-        return make_view(elems, mode, la)
+        return make_view(elems, mode, la, dt)
     if case['fn'] in ND_FNS:
-        a, abase = make_nd(case['na'], case.get('a_view'), pool, core, la)
-        b, bbase = make_nd(case['nb'], case.get('b_view'), pool, core, la)
+        a, abase = make_nd(case['na'], case.get('a_view'), pool, core, la, case.get('a_dtype'))
+        b, bbase = make_nd(case['nb'], case.get('b_view'), pool, core, la, case.get('b_dtype')) if case.get('nb') else (None, None)
     else:
-        a, abase = arr(case['a'], case.get('a_view'))
-        b, bbase = arr(case.get('b'), case.get('b_view'))
+        a, abase = arr(case['a'], case.get('a_view'), case.get('a_dtype'))
+        b, bbase = arr(case.get('b'), case.get('b_view'), case.get('b_dtype'))
     if want_bases: return pool, a, b, (abase, bbase)
     return pool, a, b
 
-ND_FNS = ('dotN', 'matmulN')
+ND_FNS = ('dotN', 'matmulN', 'transposeN')
 VIEWSN = ['plain', 'swap', 'F']
 
-def make_nd(nd, mode, pool, core, la):
+def make_nd(nd, mode, pool, core, la, dt=None):
     """an operand with any number of dimensions: {'shape': [...], 'flat': [descriptors, row-major]}.
     shape [] is a scalar (the element itself is passed).  swap: the view np.swapaxes(base, -1, -2) of a
     base stored with its last two axes exchanged; F: Fortran-ordered memory."""
@@ -122,6 +124,7 @@ def make_nd(nd, mode, pool, core, la):
     o = np.empty(len(elems), dtype=object)
     for i, e in enumerate(elems): o[i] = e
     o = o.reshape(shape)
+    if dt is not None: o = o.astype(dt)
     if mode == 'swap' and len(shape) >= 2:
         base = UncertainArray(np.ascontiguousarray(np.swapaxes(o, -1, -2)))
         return np.swapaxes(base, -1, -2), base
@@ -139,9 +142,33 @@ def rows_of(x):
         raise Unmodelled('ndim %d' % x.ndim)
     return [[x]]
 
+def _form(x, form):
+    """how the operand is handed over: the uarray itself, a plain-ndarray view of the same memory, or nested lists"""
+    import numpy as np
+    if form == 'ndarray' and isinstance(x, np.ndarray): return x.view(np.ndarray)
+    if form == 'list' and isinstance(x, np.ndarray): return x.tolist()
+    return x
+
+def seen(x, form):
+    """the operand as the function sees it: a nested list is re-read by numpy (which infers a common dtype)"""
+    import numpy as np
+    return np.asarray(x.tolist()) if (form == 'list' and isinstance(x, np.ndarray)) else x
+
+def norm_axes(axes, nd):
+    return list(range(nd))[::-1] if axes is None else [ax % nd for ax in axes]
+
 def call_impl(case, a, b):
+    import numpy as np
     from GTC import la, LU
     fn = case['fn']
+    a = _form(a, case.get('a_form')); b = _form(b, case.get('b_form'))
+    if fn == 'transposeN':
+        axes = None if case.get('axes') is None else tuple(case['axes'])
+        how = case.get('how', 'la')
+        if how == 'la': return la.transpose(a, axes)
+        if how == 'la-default': return la.transpose(a)
+        if how == 'T': return a.T
+        return np.transpose(a, axes)
     if fn == 'solve': return la.solve(a, b)
     if fn == 'inv': return la.inv(a)
     if fn == 'det': return la.det(a)
@@ -187,7 +214,7 @@ def gen_prelude(rng, case):
     (zero divisors) ; unary operations and views.  The la functions depend on contents only."""
     steps = []
     for _ in range(rng.randint(1, 4)):
-        t = rng.choice(['a', 'b']) if (case.get('b') is not None or case.get('nb') is not None) else 'a'
+        t = rng.choice(['a', 'b']) if (case.get('b') is not None or case.get('nb')) else 'a'
         if rng.random() < 0.2:
             steps.append({'k': 'unary', 't': t, 'on': rng.choice(['arg', 'base']),
                           'f': rng.choice(['neg', 'pos', 'T', 'transpose', 'slice', 'abs', 'sqrt', 'log'])})
@@ -260,7 +287,7 @@ def snapshot(x):
     import numpy as np
     if x is None: return None
     if not isinstance(x, np.ndarray): return (celt(x), id(x))
-    return (_shape(x), clist([celt(e) for e in x.flat]), [id(e) for e in x.flat])
+    return (_shape(x), str(x.dtype), clist([celt(e) for e in x.flat]), [id(e) for e in x.flat] if x.dtype == object else None)
 
 def _prod(t):
     r = 1
@@ -272,9 +299,20 @@ def nd_call(case, a, b, r, exn):
     (call, expected, shape_problem)"""
     nat = lambda k: '%d%%nat' % k
     nl = lambda t: clist([nat(v) for v in t])
-    fa, fb = _flat(a), _flat(b); sa, sb = _shape(a), _shape(b)
+    a = seen(a, case.get('a_form')); b = seen(b, case.get('b_form'))
+    fa, sa = _flat(a), _shape(a)
+    fb, sb = (_flat(b), _shape(b)) if b is not None else ([], ())
     FA = clist([celt(e) for e in fa]); FB = clist([celt(e) for e in fb])
     problem = None
+    if case['fn'] == 'transposeN':
+        axes = norm_axes(case.get('axes') if case.get('how', 'la') in ('la', 'np') else None, len(sa))
+        call = '(CTransposeN NF %s %s %s)' % (nl(sa), nl(axes), FA)
+        spec = tuple(sa[ax] for ax in axes)
+        if exn is None:
+            if _shape(r) != spec:
+                problem = 'transpose result shape %r, axes %r of shape %r give %r' % (_shape(r), case.get('axes'), sa, spec)
+            return call, '(Ok ([%s], [%s], []))' % (clist([celt(e) for e in _flat(r)]), FA), problem
+        return call, '(Err %s)' % cexn(exn), None
     if case['fn'] == 'dotN' and (sa == () or sb == ()):
         if sa == ():
             call = '(CScale NF true %s %s)' % (celt(a), FB); spec = sb; A2, B2 = FB, '[]'
@@ -314,11 +352,20 @@ def one_call(case, a, b, bases):
     contents read at this moment.  Returns (gallina term of type Z, info)"""
     fn = case['fn']
     nd = fn in ND_FNS
+    if fn in ('matmul', 'at', 'dot', 'dotN', 'matmulN') and b is not None:
+        # both operands numeric and one of them floating: numpy multiplies with BLAS, whose accumulation starts from
+        # +0.0 -- the sign of a zero result can differ from the object-dot order of the model; such calls (an operand
+        # element that is zero) are left to the oracle
+        import numpy as np
+        sa_, sb_ = seen(a, case.get('a_form')), seen(b, case.get('b_form'))
+        kinds = [getattr(x, 'dtype', np.dtype(object)).kind for x in (sa_, sb_)]
+        if all(k in 'iuf' for k in kinds) and 'f' in kinds and any(e == 0 for x in (sa_, sb_) for e in _flat(x)):
+            return None, {'exn': None, 'args_modified': False, 'shape_problem': None, 'skipped': 'native-float-dot-with-zero'}
     snap_all = lambda: (snapshot(a), snapshot(b), snapshot(bases[0]), snapshot(bases[1]),
                         _shape(a), getattr(a, 'strides', None), _shape(b) if b is not None else None,
                         getattr(b, 'strides', None))
     if not nd:
-        ra = rows_of(a); rb = rows_of(b) if b is not None else []
+        ra = rows_of(seen(a, case.get('a_form'))); rb = rows_of(seen(b, case.get('b_form'))) if b is not None else []
         A = crows(ra); B = crows(rb)
     else:
         pre_call = nd_call(case, a, b, None, 'pending')[0]     # operands as literals BEFORE the call
@@ -329,7 +376,7 @@ def one_call(case, a, b, bases):
         r = call_impl(case, a, b)
         if not nd:
             R = crows(rows_of(r))
-            A2 = crows(rows_of(a)); B2 = crows(rows_of(b)) if b is not None else '[]'
+            A2 = crows(rows_of(seen(a, case.get('a_form')))); B2 = crows(rows_of(seen(b, case.get('b_form')))) if b is not None else '[]'
             expected = '(Ok (%s, %s, %s))' % (R, A2, B2)
     except Unmodelled:
         raise
@@ -366,10 +413,12 @@ def one_call(case, a, b, bases):
             expected = '(Ok (%s, %s, []))' % (R, A2)
     else:
         raise ValueError(fn)
+    if fn in ('solve', 'invab') and b is not None and a.dtype != b.dtype:
+        call = '(CDtypeMismatch NF)'
     return '(check_call NF %s %s)' % (call, expected), info
 
 # ------------------------------------------------------------------ in-place changes between calls
-def gen_mutations(rng, shape_a, shape_b, kind, npool, oracle_dom=None):
+def gen_mutations(rng, shape_a, shape_b, kind, npool, oracle_dom=None, exact=False):
     """in-place changes of the argument arrays between two calls on the SAME objects.  oracle_dom (for
     the oracle's well-conditioned matrices): column of the dominant element of each row of a; then only
     changes of a that keep it well conditioned are generated."""
@@ -388,7 +437,7 @@ def gen_mutations(rng, shape_a, shape_b, kind, npool, oracle_dom=None):
         if m == 'set_pool' and not npool: m = 'set_num'
         if not safe and m == 'scale_elem':
             idx = [idx[0], oracle_dom[idx[0]]]; c = rng.choice([2.0, 3.0])
-        v = rng.randint(-9, 9) if kind == 'int' else rnd_val(rng)
+        v = rng.randint(-9, 9) if kind == 'int' else (rng.choice(EXACT) if exact else rnd_val(rng))
         muts.append({'m': m, 't': t, 'idx': idx, 'c': c, 'v': v, 'k': rng.randrange(npool) if npool else 0})
     return muts
 
@@ -430,13 +479,13 @@ def case_terms(case):
     out = []
     t, info = one_call(case, a, b, bases)
     info['prelude'] = pre; info['call'] = 0
-    out.append((t, info))
+    if t is not None: out.append((t, info))
     arrs = {'a': a, 'b': b}
     for k, muts in enumerate(case.get('sequence') or []):
         tags = apply_mutations(muts, arrs, pool)
         t, info = one_call(case, arrs['a'], arrs['b'], bases)
         info['prelude'] = tags + ['repeat-call' if muts else 'repeat-call-unchanged']; info['call'] = k + 1
-        out.append((t, info))
+        if t is not None: out.append((t, info))
     return out
 
 HEADER = '''From Coq Require Import ZArith List PrimFloat.
@@ -509,7 +558,8 @@ def gen_matrix_vals(rng, n, style, integer=False):
     return m
 
 KINDS = ['float', 'int', 'unc', 'mixed']
-FNS = ['solve', 'solve', 'inv', 'det', 'invab', 'matmul', 'at', 'dot', 'transpose', 'dotN', 'dotN', 'matmulN']
+FNS = ['solve', 'solve', 'inv', 'det', 'invab', 'matmul', 'at', 'dot', 'transpose', 'dotN', 'dotN', 'matmulN',
+       'transposeN', 'transposeN']
 
 def elem_with_value(rng, kind, pool, v):
     """an element of the array kind whose VALUE is v (so that the pivoting pattern is controlled)"""
@@ -581,6 +631,21 @@ def gen_nd(rng, case, kind, pool, malformed):
     broadcasts / promotes and la.matmul answers with IndexError)."""
     d = lambda: rng.randint(1, 3)
     L = d()
+    if case['fn'] == 'transposeN':
+        nd = rng.choice([1, 2, 2, 3, 3, 3])
+        shp = [rng.randint(1, 4) for _ in range(nd)]
+        c = rng.random()
+        if c < 0.2: axes = None
+        elif c < 0.35: axes = list(range(nd))
+        elif c < 0.5: axes = list(range(nd))[::-1]
+        else: axes = rng.sample(range(nd), nd)
+        if axes is not None: axes = [ax - nd if rng.random() < 0.3 else ax for ax in axes]      # negative axes
+        case['axes'] = axes
+        case['how'] = rng.choice(['la', 'la', 'la', 'np']) if axes is not None else rng.choice(['la', 'la-default', 'T', 'np'])
+        case['na'] = {'shape': shp, 'flat': [gen_elem(rng, kind, pool) for _ in range(_prod(shp))]}
+        case['nb'] = None; case['a'] = None
+        case['n'] = max(shp); case['style'] = 'tr%d' % nd
+        return
     if case['fn'] == 'dotN':
         sa = rng.choice([[], [L], [d(), L], [d(), d(), L], [d(), d(), L]])
         sb = rng.choice([[], [L], [L, d()], [d(), L, d()], [d(), L, d()]])
@@ -621,7 +686,7 @@ def case_shapes(case):
     def shp(rows):
         if rows is None: return None
         return [len(rows), len(rows[0])] if is2d(rows) else [len(rows)]
-    if case['fn'] in ND_FNS: return case['na']['shape'], case['nb']['shape']
+    if case['fn'] in ND_FNS: return case['na']['shape'], (case['nb']['shape'] if case.get('nb') else None)
     return shp(case['a']), shp(case.get('b'))
 
 def add_sequence(rng, case, oracle_dom=None):
@@ -629,13 +694,59 @@ def add_sequence(rng, case, oracle_dom=None):
     if rng.random() < 0.35:
         sa, sb = case_shapes(case)
         if case['fn'] in ND_FNS or (sa and all(len(r) == len(case['a'][0]) for r in case['a']) if is2d(case['a']) else True):
-            case['sequence'] = [gen_mutations(rng, sa, sb, case['kind'], len(case['pool']), oracle_dom)
+            exact = case['fn'] not in LU_FNS and 'float64' in (case.get('a_dtype'), case.get('b_dtype'))
+            case['sequence'] = [gen_mutations(rng, sa, sb, case['kind'], len(case['pool']), oracle_dom, exact)
                                 for _ in range(rng.randint(1, 2))]
 
 def is2d(rows):
     return bool(rows) and isinstance(rows[0], list) and bool(rows[0]) and isinstance(rows[0][0], list)
 
-def add_history(rng, case, oracle_dom=None):
+INT_DTYPES = ['int64', 'int32']
+EXACT = [0.25 * k for k in range(-40, 41) if k != 0]
+LU_FNS = ('solve', 'inv', 'det', 'invab')
+
+def add_dtype_forms(rng, case, oracle=False):
+    """arguments that are not object arrays: uarrays built from NUMERIC ndarrays (which keep their dtype), plain
+    ndarrays, nested lists.  Only for all-int / all-float contents.  Kept out (defects of the unchanged tree,
+    reported): integer dtypes with inv / invab (result array allocated with a.dtype: truncated), plain INTEGER
+    ndarrays with solve / inv / det (ndarray.copy keeps the dtype: truncated), lists with solve / inv / det
+    (AttributeError), bool."""
+    kind, fn = case['kind'], case['fn']
+    if kind not in ('int', 'float') or rng.random() < 0.45: return
+    lu = fn in LU_FNS
+    dts = (INT_DTYPES if kind == 'int' else ['float64', 'float64'] + (['float32', 'complex128'] if oracle else []))
+    if case.get('tiny'): dts = [d for d in dts if d != 'float32']
+    dt = rng.choice(dts)
+    if lu and kind == 'int' and fn in ('inv', 'invab'): return
+    form = rng.choice(['uarray', 'uarray', 'ndarray', 'list'])
+    if lu and form == 'list': form = 'uarray'
+    if lu and form == 'ndarray' and kind == 'int': form = 'uarray'
+    if case.get('style') == 'nonsquare': form = 'uarray'
+    for key in ('a', 'b'):
+        if case.get(key) is None and not (case.get('n' + key)): continue
+        if lu:
+            case[key + '_dtype'], case[key + '_form'] = dt, form          # LU.solve asserts equal dtypes
+        else:
+            if rng.random() < 0.25: continue                               # this operand stays an object uarray
+            case[key + '_dtype'] = rng.choice(dts); case[key + '_form'] = rng.choice(['uarray', 'uarray', 'ndarray', 'list'])
+            if fn == 'at' and case[key + '_form'] == 'list': case[key + '_form'] = 'ndarray' if key == 'b' else 'uarray'
+    if fn == 'transposeN' and case.get('how') == 'T' and case.get('a_form') == 'list': case['a_form'] = 'ndarray'
+    if case.get('use_at') and case.get('a_form') in ('list', 'ndarray') and case.get('b_form') in ('list', 'ndarray'):
+        case['use_at'] = False
+    if fn == 'at' and case.get('a_form') != 'uarray' and case.get('b_form') not in (None, 'uarray'):
+        case['a_form'] = 'uarray'                                          # @ needs one operand that defines __matmul__
+    if kind == 'float' and not lu:
+        # numeric float operands go through BLAS (another summation order): exactly representable values only
+        def ex(d): return ['f', rng.choice(EXACT)] if d[0] == 'f' else d
+        for key in ('a', 'b'):
+            rows = case.get(key)
+            if rows is not None:
+                case[key] = [[ex(e) for e in r] for r in rows] if is2d(rows) else [ex(e) for e in rows]
+            nd = case.get('n' + key)
+            if nd: nd['flat'] = [ex(e) for e in nd['flat']]
+
+def add_history(rng, case, oracle_dom=None, oracle=False):
+    add_dtype_forms(rng, case, oracle)
     add_views(rng, case)
     if rng.random() < 0.4:
         case['prelude'] = gen_prelude(rng, case)
@@ -645,8 +756,8 @@ def add_views(rng, case):
     """how the arguments are laid out in memory: half of the calls get a transpose view, a
     Fortran-ordered array, or a window / strided / reversed view of a larger base array"""
     if case['fn'] in ND_FNS:
-        for key, nd in (('a', case['na']), ('b', case['nb'])):
-            case[key + '_view'] = rng.choice(VIEWSN) if len(nd['shape']) >= 2 else 'plain'
+        for key, nd in (('a', case['na']), ('b', case.get('nb'))):
+            if nd: case[key + '_view'] = rng.choice(VIEWSN) if len(nd['shape']) >= 2 else 'plain'
         return
     for key in ('a', 'b'):
         rows = case.get(key)
@@ -676,6 +787,9 @@ def classify(case, info):
             'a_view=' + str(case.get('a_view'))]
     if case.get('b') is not None: tags.append('b_view=' + str(case.get('b_view')))
     if case.get('sequence') and info.get('call') == 0: tags.append('with-sequence')
+    for key in ('a', 'b'):
+        if case.get(key + '_dtype'): tags.append('%s=%s/%s' % (key, case[key + '_dtype'], case.get(key + '_form')))
+    if case['fn'] == 'transposeN': tags.append('axes=%s how=%s' % ('None' if case.get('axes') is None else 'given', case.get('how')))
     if info['exn']: tags.append('raises=' + info['exn'])
     tags.extend(info.get('prelude') or [])
     if case.get('prelude'): tags.append('with-prelude')
@@ -727,6 +841,97 @@ def run_corr(rng, ncases, name):
                     'distinct by hash of the case',
             'samples': [{'case': c} for c in cases[:2]]}
 
+# ------------------------------------------------------------------ slice for C10: operands are never modified
+def _sig(x):
+    """content signature of an array / scalar result (no Coq involved)"""
+    import numpy as np
+    def one(e):
+        try: return celt(e)
+        except Unmodelled: return repr(e)
+    if isinstance(x, np.ndarray): return (tuple(x.shape), str(x.dtype), tuple(one(e) for e in x.flat))
+    return ((), type(x).__name__, (one(x),))
+
+def operands_unmodified_correspondence(rng, tier, name='C10la'):
+    """Implementation-only slice of the C15 cases for property C10 ("operands are never modified by an operation"):
+    every linear-algebra call (la.solve / inv / det, LU.invab, la.matmul / dot / @ / transpose, 2-D and N-d, on
+    object, numeric-dtype, ndarray and list operands, views, with histories and in-place changes between repeated
+    calls) is checked for (1) contents, element identities, shape, dtype and strides of every operand AND of the base
+    array of every view being the same after the call as before, (2) the result not being, and (except for
+    transposes, which are views by definition) not sharing memory with, an operand or base, (3) an immediate second
+    call on the unchanged operands giving an equal, fresh result.  Returns the usual correspondence dict."""
+    import numpy as np, warnings
+    n = 150 if tier == 'quick' else 2500
+    cases = 0; calls = 0; mism = []; stats = collections.Counter(); seen = set()
+    def full_snap(objs):
+        out = []
+        for x in objs:
+            if x is None: out.append(None)
+            elif isinstance(x, np.ndarray):
+                out.append((_sig(x), [id(e) for e in x.flat] if x.dtype == object else None, x.strides))
+            else: out.append((_sig(x), id(x)))
+        return out
+    def run_once(case, a, b):
+        try:
+            with warnings.catch_warnings():
+                warnings.simplefilter('ignore')
+                return ('ok', call_impl(case, a, b))
+        except Exception as ex:
+            return ('exn', type(ex).__name__)
+    i = 0
+    while cases < n:
+        i += 1
+        case = gen_case(rng, 5000 + i, malformed=(i % 10 == 0))
+        try:
+            pool, a, b, bases = build(case, want_bases=True)
+        except Exception:
+            continue
+        cases += 1; seen.add(hashlib.sha1(json_key(case)).hexdigest())
+        stats[case['fn']] += 1
+        with warnings.catch_warnings():
+            warnings.simplefilter('ignore')
+            run_prelude(case, a, b, bases)
+        arrs = {'a': a, 'b': b}
+        rounds = [None] + list(case.get('sequence') or [])
+        for k, muts in enumerate(rounds):
+            if muts is not None:
+                with warnings.catch_warnings():
+                    warnings.simplefilter('ignore')
+                    apply_mutations(muts, arrs, pool)
+            a_, b_ = arrs['a'], arrs['b']
+            objs = [a_, b_, bases[0], bases[1]]
+            before = full_snap(objs)
+            st1, r1 = run_once(case, a_, b_)
+            after = full_snap(objs)
+            calls += 1
+            def report(what):
+                mism.append({'kind': 'operands-unmodified', 'what': what, 'case': case, 'call': k})
+            if after != before:
+                which = [nm for nm, x, y in zip(('a', 'b', 'base of a', 'base of b'), before, after) if x != y]
+                report('%s changed by the call: %s' % (case['fn'], ', '.join(which)))
+                stats['modified'] += 1
+                continue
+            if st1 == 'exn':
+                stats['raises=' + r1] += 1
+                continue
+            if isinstance(r1, np.ndarray):
+                if any(r1 is o for o in objs if o is not None):
+                    report('%s returned one of its operands' % case['fn'])
+                elif case['fn'] not in ('transpose', 'transposeN') and \
+                        any(isinstance(o, np.ndarray) and np.shares_memory(r1, o) for o in objs):
+                    report('the result of %s shares memory with an operand' % case['fn'])
+            st2, r2 = run_once(case, a_, b_)
+            calls += 1
+            if full_snap(objs) != before:
+                report('%s changed its operands on the second call' % case['fn'])
+            elif st2 != 'ok' or _sig(r2) != _sig(r1):
+                report('%s called twice on unchanged operands gave different results' % case['fn'])
+            elif isinstance(r1, np.ndarray) and r2 is r1:
+                report('%s returned the same result object twice' % case['fn'])
+    return {'programs': cases, 'steps': calls, 'mismatches': mism, 'distinct': len(seen),
+            'distribution': dict(stats),
+            'rule': 'linear-algebra calls of the C15 generator (implementation only): operands and view bases '
+                    'snapshotted around every call, results fresh and equal on a repeated call'}
+
 def json_key(c):
     import json
     return json.dumps(c, sort_keys=True).encode()
@@ -734,15 +939,16 @@ def json_key(c):
 # ------------------------------------------------------------------ oracle (search only)
 def gen_oracle_case(rng):
     """well-conditioned systems (row-permuted diagonally dominant), all element kinds incl. complex"""
-    kind = rng.choice(['float', 'int', 'unc', 'mixed', 'complex', 'ucomplex'])
-    fn = rng.choice(['solve', 'solve', 'inv', 'det', 'invab', 'matmul', 'transpose', 'dotN', 'matmulN'])
+    tiny = False
+    kind = rng.choice(['float', 'float', 'int', 'int', 'unc', 'mixed', 'complex', 'ucomplex'])
+    fn = rng.choice(['solve', 'solve', 'inv', 'det', 'det', 'invab', 'matmul', 'transpose', 'dotN', 'matmulN', 'transposeN'])
     n = rng.randint(1, 6)
     if fn in ND_FNS:
         kind = rng.choice(KINDS)
         pool = gen_pool(rng) if kind in ('unc', 'mixed') else []
         case = {'ctx': 77, 'fn': fn, 'kind': kind, 'n': n, 'pool': pool, 'b': None}
         gen_nd(rng, case, kind, pool, False)
-        add_history(rng, case)
+        add_history(rng, case, oracle=True)
         return case
     base = kind if kind in KINDS else 'mixed'
     pool = gen_pool(rng) if kind != 'float' and kind != 'int' else []
@@ -750,6 +956,7 @@ def gen_oracle_case(rng):
     if kind == 'float' and rng.random() < 0.3:      # tiny pivots, same conditioning (plain floats only: exact values)
         sc = rng.choice([2.0 ** -50, 1e-13, 1e-17, 2.0 ** -200])
         vals = [[v * sc for v in r] for r in vals]
+        tiny = True
     def el(v):
         if kind == 'complex' and rng.random() < 0.5: return ['zc', v, rnd_val(rng) * 0.1]
         if kind == 'ucomplex' and rng.random() < 0.5: return ['zu', v, rnd_val(rng) * 0.1, 0.1]
@@ -764,7 +971,8 @@ def gen_oracle_case(rng):
         m = rng.randint(1, 3)
         case['b'] = [[rhs() for _ in range(m)] for _ in range(n)]
     dom = [max(range(n), key=lambda j: abs(r[j])) for r in vals]
-    add_history(rng, case, oracle_dom=dom)
+    if tiny: case['tiny'] = True
+    add_history(rng, case, oracle_dom=dom, oracle=True)
     return case
 
 def flat_descr(rows):
@@ -878,18 +1086,38 @@ def _oracle_once(case, pool, a, b, bases, first):
     import numpy as np
     from GTC import la, LU, lib
     fn = case['fn']
-    tol = 1e-8
-    snap = lambda arr: None if arr is None else ([(id(e), repr(e)) for e in arr.flat] if isinstance(arr, np.ndarray) else repr(arr))
+    f32 = 'float32' in (case.get('a_dtype'), case.get('b_dtype'))
+    tol = 2e-4 if f32 else 1e-8
+    tol12 = 1e-5 if f32 else 1e-12
+    tol11 = 1e-5 if f32 else 1e-11
+    snap = lambda arr: None if arr is None else ([(id(e) if arr.dtype == object else 0, repr(e)) for e in arr.flat] if isinstance(arr, np.ndarray) else repr(arr))
     snap_all = lambda: (snap(a), snap(b), snap(bases[0]), snap(bases[1]))
     before = snap_all()
+    dtype_clash = fn in ('solve', 'invab') and isinstance(b, np.ndarray) and a.dtype != b.dtype
     try:
         r = call_impl(case, a, b)
+        if dtype_clash: return '%s accepted operands of dtypes %s and %s' % (fn, a.dtype, b.dtype)
     except Exception as ex:
+        if dtype_clash and isinstance(ex, AssertionError): return None      # LU.solve / invab: assert a.dtype == b.dtype
         # well-conditioned non-singular / aligned input: an exception is a failure of the property
         return '%s raised %s: %s' % (fn, type(ex).__name__, ex)
     why = None
     if snap_all() != before:
         why = '%s modified its arguments (or the base array of a view)' % fn
+    if fn == 'transposeN':
+        if why: return why
+        sa = _shape(a)
+        axes = norm_axes(case.get('axes') if case.get('how', 'la') in ('la', 'np') else None, len(sa))
+        spec = tuple(sa[ax] for ax in axes)
+        if _shape(r) != spec:
+            return 'transpose(axes=%r) of shape %r has shape %r, not %r' % (case.get('axes'), sa, _shape(r), spec)
+        for ridx in np.ndindex(*spec):
+            src = [0] * len(sa)
+            for k_, ax in enumerate(axes): src[ax] = ridx[k_]
+            x, y = r[ridx], a[tuple(src)]
+            if (x is not y) if (a.dtype == object and case.get('a_form') != 'list') else not (x == y):
+                return 'transpose(axes=%r): element %r is not element %r of the argument' % (case.get('axes'), ridx, tuple(src))
+        return None
     if fn in ND_FNS:
         if why: return why
         shape, flat = _nd_spec(fn, a, b)
@@ -898,11 +1126,11 @@ def _oracle_once(case, pool, a, b, bases, first):
         for t, (x, y) in enumerate(zip(_flat(r), flat)):
             d = x - y
             sv = abs(_val(x)) + abs(_val(y)) + 1e-300
-            if abs(_val(d)) > 1e-11 * sv:
+            if abs(_val(d)) > tol11 * sv:
                 return '%s element %d differs from the sum of products: %r vs %r' % (fn, t, _val(x), _val(y))
             for k, inp in enumerate(pool):
                 c = _comp(d, inp)
-                if c > 1e-11 * (_comp(x, inp) + _comp(y, inp)) + 1e-300 and c > 1e-14 * sv:
+                if c > tol11 * (_comp(x, inp) + _comp(y, inp)) + 1e-300 and c > 1e-14 * sv:
                     return '%s element %d: component w.r.t. input %d differs from the sum of products by %r' % (fn, t, k, c)
         return None
     A = [list(row) for row in a]
@@ -947,14 +1175,15 @@ def _oracle_once(case, pool, a, b, bases, first):
     elif why is None and fn == 'matmul':
         Bm = [list(row) for row in b]
         R = [list(row) for row in r]
-        why = _residual_fail(R, _sumprod(A, Bm), scale_of(A, Bm), pool, 1e-12, 'matmul - sum of products')
+        why = _residual_fail(R, _sumprod(A, Bm), scale_of(A, Bm), pool, tol12, 'matmul - sum of products')
         if why is None:
             R2 = [list(row) for row in (a @ b)]; R3 = [list(row) for row in la.dot(a, b)]
-            why = _residual_fail(R2, R, scale_of(A, Bm), pool, 1e-12, '@ - matmul') or \
-                  _residual_fail(R3, R, scale_of(A, Bm), pool, 1e-12, 'dot - matmul')
+            why = _residual_fail(R2, R, scale_of(A, Bm), pool, tol12, '@ - matmul') or \
+                  _residual_fail(R3, R, scale_of(A, Bm), pool, tol12, 'dot - matmul')
     elif why is None and fn == 'transpose':
         n, m = a.shape
-        if r.shape != (m, n) or any(r[j, i] is not a[i, j] for i in range(n) for j in range(m)):
+        same = (lambda x, y: x is y) if (a.dtype == object and case.get('a_form') != 'list') else (lambda x, y: x == y)
+        if r.shape != (m, n) or any(not same(r[j, i], a[i, j]) for i in range(n) for j in range(m)):
             why = 'transpose does not only permute'
     return why
 
